@@ -15,6 +15,7 @@ import (
 	"net"
 	"os"
 	"path/filepath"
+	"strings"
 	"time"
 
 	"github.com/glowlabs-org/gca-backend/client"
@@ -29,7 +30,7 @@ func init() {
 		Real:           []string{"client send loop, sync rounds, reply parser, history store, energy file reader", "server report handler, sync handler, rotation loop, restart"},
 		Stub:           []string{"kernel sockets (UDP queue / simulated TCP connections with a fault layer)", "the meter firmware (harness writes energy_data.csv)"},
 		Assumptions:    []string{"readings fit 32 signed bits (the property's own restriction)", "the coverage claim is about the server contacted by the final sync round"},
-		RequiredProbes: []string{"c08.recovered-by-retransmission", "c08.negative-reading", "c08.sentinel-reading", "c08.sync-failed-before", "c08.rotation", "c08.server-restart", "c08.dup-retransmission", "c08.long-outage", "c08.old-slot-probed", "c08.reading-at-origin", "c08.overlapping-rounds-two-servers"},
+		RequiredProbes: []string{"c08.recovered-by-retransmission", "c08.corrected-row", "c08.negative-reading", "c08.sentinel-reading", "c08.sync-failed-before", "c08.rotation", "c08.server-restart", "c08.dup-retransmission", "c08.long-outage", "c08.old-slot-probed", "c08.reading-at-origin", "c08.overlapping-rounds-two-servers"},
 		RequiredSites:  []string{"send.wake", "send.tick", "csync.start", "csync.wake", "csync.resend", "report.after-write"},
 	})
 }
@@ -142,6 +143,7 @@ func runC08(m *Sim) {
 	}
 	ticks := 30 + m.C.Int("ticks", 120)
 	slot := start
+	var errorRows []int
 	if m.C.Chance("reading-at-origin", 2, 3) {
 		// The very first slot of the device's history (timeslot == origin).
 		cl.MeterAppend(start, c08Readings[m.C.Int("reading", len(c08Readings))], m.C.Int("sec", 300))
@@ -160,6 +162,21 @@ func runC08(m *Sim) {
 				m.Probe("c08.sentinel-reading")
 			}
 			cl.MeterAppend(slot, v, m.C.Int("sec", 300))
+			if v == "error" {
+				errorRows = append(errorRows, len(cl.Rows)-1)
+			}
+		}
+		if len(errorRows) > 0 && m.C.Chance("meter-corrects-row", 1, 10) {
+			// The meter rewrites a row it had left unreadable with a proper value.
+			// The reading the device has already acted on for that slot stands:
+			// whatever is sent for it later is the same datagram.
+			idx := errorRows[0]
+			errorRows = errorRows[1:]
+			rows := append([]string{}, cl.Rows...)
+			ts, _, _ := strings.Cut(rows[idx], ",")
+			rows[idx] = ts + ",5000"
+			cl.MeterRewrite(rows)
+			m.Probe("c08.corrected-row")
 		}
 		switch m.C.Weighted("event", 40, 1, 1, 1, 1) {
 		case 4: // a long outage: days pass (the window still holds the older slots)
